@@ -1,4 +1,5 @@
 import TpmVerif.Model.Session
+import TpmVerif.Model.Context
 /-!
   C11 — session slots are accounted; a saved session context loads at most once, in order, and the
   truncated context counter is never reused ambiguously.  Theorems about `Model.Session`
@@ -260,5 +261,45 @@ theorem save_keeps_counter_clear (s : St) (hm : MaskOk s) (h : Nat) (hok : (save
 example : (create ({} : St)).2.1 = .ok := by decide
 example : MaskOk ({} : St) := Or.inr rfl
 example : masked ({} : St) ({} : St).counter > NLOAD := by decide
+
+/-! ### Protection of the saved context (Context_spt.c) -/
+section protection
+open TpmVerif.Model.Context
+
+theorem beBytes_length (n len : Nat) : (beBytes n len).length = len := by simp [beBytes]
+
+/-- **exact acceptance condition**: a context blob is accepted only if its integrity field IS the HMAC under the
+    hierarchy proof over (totalResetCount ‖ [clearCount] ‖ sequence ‖ handle ‖ encrypted blob) and it decrypts, under the
+    key derived from proof, sequence and handle, to a blob that starts with its sequence number -/
+theorem accepts_condition (proof : Bytes) (total clear seq handle : Nat) (blob : Bytes) (h : accepts proof total clear seq handle blob = true) :
+    ∃ integ enc, splitBlob blob = some (integ, enc) ∧ integ = integrity proof total clear seq handle enc ∧
+      ((TpmVerif.Crypto.cfbDecrypt (TpmVerif.Crypto.aesEncryptBlock (protectionKey proof seq handle).1) (protectionKey proof seq handle).2 enc).1.take 8) = leBytes seq 8 := by
+  unfold accepts at h
+  cases hs : splitBlob blob with
+  | none => simp [hs] at h
+  | some p =>
+    obtain ⟨integ, enc⟩ := p
+    simp only [hs, Bool.and_eq_true, beq_iff_eq] at h
+    exact ⟨integ, enc, rfl, h.1, h.2⟩
+
+/-- the HMAC input binds every field: for ordinary handles it determines the reset count, the sequence number, the
+    handle and every byte of the encrypted blob (fixed-width fields, then the blob) -/
+theorem integrityInput_inj (total total' clear clear' seq seq' handle handle' : Nat) (enc enc' : Bytes)
+    (hh : handle ≠ 0x80000002) (hh' : handle' ≠ 0x80000002)
+    (h : integrityInput total clear seq handle enc = integrityInput total' clear' seq' handle' enc') :
+    beBytes total Gen.SIZEOF_TOTAL_RESET_COUNT = beBytes total' Gen.SIZEOF_TOTAL_RESET_COUNT ∧
+    beBytes seq 8 = beBytes seq' 8 ∧ beBytes handle 4 = beBytes handle' 4 ∧ enc = enc' := by
+  unfold integrityInput at h
+  simp only [hh, hh', if_false, List.append_nil, List.append_assoc] at h
+  obtain ⟨h1, h2⟩ := List.append_inj h (by simp [beBytes_length])
+  obtain ⟨h3, h4⟩ := List.append_inj h2 (by simp [beBytes_length])
+  obtain ⟨h5, h6⟩ := List.append_inj h4 (by simp [beBytes_length])
+  exact ⟨h1, h3, h5, h6⟩
+
+/-- a blob without a complete integrity field is never accepted -/
+theorem short_blob_rejected (proof : Bytes) (total clear seq handle : Nat) (blob : Bytes) (h : splitBlob blob = none) :
+    accepts proof total clear seq handle blob = false := by simp [accepts, h]
+
+end protection
 
 end TpmVerif.Props.C11
